@@ -169,6 +169,10 @@ where
     }
 }
 
+#[cfg(kani)]
+#[path = "/verif/kani/arraybuf.rs"]
+mod kani_verif;
+
 #[cfg(feature = "alloc")]
 mod if_alloc {
     use super::*;
